@@ -28,10 +28,15 @@ static void fwake(volatile int *w) { __atomic_store_n(w, 1, __ATOMIC_RELEASE); s
 // the running thread `from` (-1: the controller) hands the processor to the thread chosen by the schedule
 void pick(int from, int acc) {
   int en[MAXT], n = 0;
-  bool from_enabled = from >= 0 && !S.finished[from];
+  bool from_enabled = from >= 0 && !S.finished[from] && !S.blocked[from];
   if (from_enabled) en[n++] = from;
-  for (int t = 0; t < S.nthreads; t++) if (t != from && !S.finished[t]) en[n++] = t;
-  if (n == 0) { fwake(&S.done); return; }
+  for (int t = 0; t < S.nthreads; t++) if (t != from && !S.finished[t] && !S.blocked[t]) en[n++] = t;
+  if (n == 0) {
+    bool all = true; for (int t = 0; t < S.nthreads; t++) if (!S.finished[t]) all = false;
+    if (!all) { S.deadlock = 1; fprintf(stderr, "SCHED-DEADLOCK: no enabled thread, some blocked on a lock\n"); }
+    fwake(&S.done); if (from >= 0 && !S.finished[from]) for (;;) pause();
+    return;
+  }
   int choice = 0;
   if (S.pos < S.nprefix) { choice = S.prefix[S.pos]; if (choice < 0 || choice >= n) { fprintf(stderr, "SCHED-DIVERGENCE: replayed choice %d out of range (%d enabled) at point %d\n", choice, n, S.pos); _exit(3); } }
   int next = en[choice]; unsigned mask = 0; for (int i = 0; i < n; i++) mask |= 1u << en[i];
@@ -39,19 +44,45 @@ void pick(int from, int acc) {
   S.pos++;
   if (next == from) return;
   fwake(&S.go[next]);
-  if (from_enabled) fwait(&S.go[from]);
+  if (from >= 0 && !S.finished[from]) fwait(&S.go[from]);
 }
 
-static inline void access(void *a, int size, bool write) {
+static inline void access(void *a, int size, bool write, bool atomic = false) {
   if (tl_tid < 0 || tl_busy) return;
   uintptr_t p = (uintptr_t)a;
   if (p < (uintptr_t)&__data_start || p >= (uintptr_t)&_end) return;
   if (p >= (uintptr_t)&S && p < (uintptr_t)(&S + 1)) return;
   tl_busy = 1;
-  if (S.nlog < MAXLOG) { S.log[S.nlog].tid = tl_tid; S.log[S.nlog].off = (long)(p - (uintptr_t)&__data_start); S.log[S.nlog].size = size; S.log[S.nlog].write = write; S.nlog++; } else S.overflow = 1;
+  if (S.nlog < MAXLOG) { S.log[S.nlog].tid = tl_tid; S.log[S.nlog].off = (long)(p - (uintptr_t)&__data_start); S.log[S.nlog].size = size; S.log[S.nlog].write = write; S.log[S.nlog].atomic = atomic; for (int i = 0; i < MAXT; i++) S.log[S.nlog].vc[i] = S.vc[tl_tid][i]; S.nlog++; } else S.overflow = 1;
   pick(tl_tid, S.nlog - 1);
   tl_busy = 0;
 }
+
+// ---- cooperative locks: for scheduled threads a lock is a table entry (only one thread runs at a time); a thread that
+// finds it taken becomes disabled until the owner releases it. Covers pthread mutexes and C++ static-initialisation guards.
+struct Lock { const void *addr; int owner; int vc[MAXT]; };
+// happens-before: release (unlock, atomic store, guard release) publishes the thread's clock in the sync object and
+// advances the thread's own component; acquire (lock, atomic load, guard acquire) joins the object's clock
+static Lock *lock_of(const void *m);
+void hb_release(const void *m) { if (tl_tid < 0) return; S.syncops++; Lock *l = lock_of(m); for (int i = 0; i < MAXT; i++) if (S.vc[tl_tid][i] > l->vc[i]) l->vc[i] = S.vc[tl_tid][i]; S.vc[tl_tid][tl_tid]++; }
+void hb_acquire(const void *m) { if (tl_tid < 0) return; Lock *l = lock_of(m); for (int i = 0; i < MAXT; i++) if (l->vc[i] > S.vc[tl_tid][i]) S.vc[tl_tid][i] = l->vc[i]; }
+static Lock locks[256]; static int nlocks = 0;
+static Lock *lock_of(const void *m) { for (int i = 0; i < nlocks; i++) if (locks[i].addr == m) return &locks[i]; if (nlocks < 256) { memset(&locks[nlocks], 0, sizeof(Lock)); locks[nlocks].addr = m; locks[nlocks].owner = -1; return &locks[nlocks++]; } fprintf(stderr, "ERROR: lock table full\n"); _exit(2); }
+void coop_lock(const void *m) {
+  tl_busy++;
+  pick(tl_tid, -1);  // acquiring a lock is a scheduling point
+  Lock *l = lock_of(m);
+  while (l->owner >= 0 && l->owner != tl_tid) { S.blocked[tl_tid] = true; S.waits_on[tl_tid] = m; pick(tl_tid, -1); l = lock_of(m); }
+  l->owner = tl_tid; hb_acquire(m);
+  tl_busy--;
+}
+int coop_trylock(const void *m) { Lock *l = lock_of(m); if (l->owner >= 0 && l->owner != tl_tid) return 16 /* EBUSY */; l->owner = tl_tid; hb_acquire(m); return 0; }
+void coop_unlock(const void *m) {
+  hb_release(m);
+  Lock *l = lock_of(m); l->owner = -1;
+  for (int t = 0; t < S.nthreads; t++) if (S.blocked[t] && S.waits_on[t] == m) { S.blocked[t] = false; S.waits_on[t] = nullptr; }
+}
+bool scheduled() { return tl_tid >= 0; }
 
 struct Arg { int id; void (*body)(int); };
 static void *tmain(void *v) {
@@ -61,11 +92,12 @@ static void *tmain(void *v) {
   return nullptr;
 }
 void run_threads(int n, void (*body)(int), const int *prefix, int nprefix) {
-  memset((void *)&S, 0, sizeof S); S.nthreads = n; S.nprefix = nprefix; for (int i = 0; i < nprefix && i < MAXP; i++) S.prefix[i] = prefix[i];
+  memset((void *)&S, 0, sizeof S); nlocks = 0; S.nthreads = n; for (int t = 0; t < MAXT; t++) S.vc[t][t] = 1; S.nprefix = nprefix; for (int i = 0; i < nprefix && i < MAXP; i++) S.prefix[i] = prefix[i];
   pthread_t th[MAXT]; Arg args[MAXT];
   for (int i = 0; i < n; i++) { args[i] = {i, body}; pthread_create(&th[i], nullptr, tmain, &args[i]); }
   pick(-1, -1);
   fwait(&S.done);
+  if (S.deadlock) return;  // blocked threads never finish; the caller exits the process
   for (int i = 0; i < n; i++) pthread_join(th[i], nullptr);
 }
 }  // namespace sc
@@ -81,7 +113,47 @@ void __tsan_read_range(void *a, unsigned long n) { sc::access(a, (int)n, false);
 void __tsan_write_range(void *a, unsigned long n) { sc::access(a, (int)n, true); }
 void __tsan_vptr_update(void **p, void *) { sc::access(p, 8, true); }
 void __tsan_vptr_read(void **p) { sc::access(p, 8, false); }
+// atomics: performed for real; a scheduling point when they touch global memory, never a race candidate
+#define AT(bits, T) \
+  T __tsan_atomic##bits##_load(const volatile T *a, int) { sc::access((void *)a, bits / 8, false, true); T v = __atomic_load_n(a, __ATOMIC_SEQ_CST); sc::hb_acquire((const void *)a); return v; } \
+  void __tsan_atomic##bits##_store(volatile T *a, T v, int) { sc::access((void *)a, bits / 8, true, true); sc::hb_release((const void *)a); __atomic_store_n(a, v, __ATOMIC_SEQ_CST); } \
+  T __tsan_atomic##bits##_exchange(volatile T *a, T v, int) { sc::access((void *)a, bits / 8, true, true); sc::hb_acquire((const void *)a); sc::hb_release((const void *)a); return __atomic_exchange_n(a, v, __ATOMIC_SEQ_CST); } \
+  T __tsan_atomic##bits##_fetch_add(volatile T *a, T v, int) { sc::access((void *)a, bits / 8, true, true); sc::hb_acquire((const void *)a); sc::hb_release((const void *)a); return __atomic_fetch_add(a, v, __ATOMIC_SEQ_CST); } \
+  T __tsan_atomic##bits##_fetch_sub(volatile T *a, T v, int) { sc::access((void *)a, bits / 8, true, true); sc::hb_acquire((const void *)a); sc::hb_release((const void *)a); return __atomic_fetch_sub(a, v, __ATOMIC_SEQ_CST); } \
+  T __tsan_atomic##bits##_fetch_and(volatile T *a, T v, int) { sc::access((void *)a, bits / 8, true, true); sc::hb_acquire((const void *)a); sc::hb_release((const void *)a); return __atomic_fetch_and(a, v, __ATOMIC_SEQ_CST); } \
+  T __tsan_atomic##bits##_fetch_or(volatile T *a, T v, int) { sc::access((void *)a, bits / 8, true, true); sc::hb_acquire((const void *)a); sc::hb_release((const void *)a); return __atomic_fetch_or(a, v, __ATOMIC_SEQ_CST); } \
+  T __tsan_atomic##bits##_fetch_xor(volatile T *a, T v, int) { sc::access((void *)a, bits / 8, true, true); sc::hb_acquire((const void *)a); sc::hb_release((const void *)a); return __atomic_fetch_xor(a, v, __ATOMIC_SEQ_CST); } \
+  int __tsan_atomic##bits##_compare_exchange_strong(volatile T *a, T *e, T v, int, int) { sc::access((void *)a, bits / 8, true, true); sc::hb_acquire((const void *)a); sc::hb_release((const void *)a); return __atomic_compare_exchange_n(a, e, v, 0, __ATOMIC_SEQ_CST, __ATOMIC_SEQ_CST); } \
+  int __tsan_atomic##bits##_compare_exchange_weak(volatile T *a, T *e, T v, int, int) { sc::access((void *)a, bits / 8, true, true); sc::hb_acquire((const void *)a); sc::hb_release((const void *)a); return __atomic_compare_exchange_n(a, e, v, 0, __ATOMIC_SEQ_CST, __ATOMIC_SEQ_CST); }
+AT(8, unsigned char) AT(16, unsigned short) AT(32, unsigned int) AT(64, unsigned long)
+void __tsan_atomic_thread_fence(int) { __atomic_thread_fence(__ATOMIC_SEQ_CST); }
+void __tsan_atomic_signal_fence(int) {}
 void __tsan_read_write1(void *a) { sc::access(a, 1, true); } void __tsan_read_write2(void *a) { sc::access(a, 2, true); }
 void __tsan_read_write4(void *a) { sc::access(a, 4, true); } void __tsan_read_write8(void *a) { sc::access(a, 8, true); }
 void __tsan_read_write16(void *a) { sc::access(a, 16, true); }
+
+// ---- interposed synchronisation (symbols defined in the executable take precedence over libpthread / libstdc++)
+}
+#include <dlfcn.h>
+extern "C" {
+int pthread_mutex_lock(pthread_mutex_t *m) {
+  if (sc::scheduled()) { sc::coop_lock(m); return 0; }
+  static int (*real)(pthread_mutex_t *) = (int (*)(pthread_mutex_t *))dlsym(RTLD_NEXT, "pthread_mutex_lock"); return real(m);
+}
+int pthread_mutex_unlock(pthread_mutex_t *m) {
+  if (sc::scheduled()) { sc::coop_unlock(m); return 0; }
+  static int (*real)(pthread_mutex_t *) = (int (*)(pthread_mutex_t *))dlsym(RTLD_NEXT, "pthread_mutex_unlock"); return real(m);
+}
+int pthread_mutex_trylock(pthread_mutex_t *m) {
+  if (sc::scheduled()) return sc::coop_trylock(m);
+  static int (*real)(pthread_mutex_t *) = (int (*)(pthread_mutex_t *))dlsym(RTLD_NEXT, "pthread_mutex_trylock"); return real(m);
+}
+// C++ thread-safe static initialisation: guard byte 0 = initialised
+int __cxa_guard_acquire(long long *g) {
+  if (*(volatile char *)g) { sc::hb_acquire(g); return 0; }
+  if (sc::scheduled()) { sc::coop_lock(g); if (*(volatile char *)g) { sc::coop_unlock(g); return 0; } return 1; }
+  return 1;
+}
+void __cxa_guard_release(long long *g) { *(volatile char *)g = 1; if (sc::scheduled()) sc::coop_unlock(g); }
+void __cxa_guard_abort(long long *g) { if (sc::scheduled()) sc::coop_unlock(g); }
 }
